@@ -78,18 +78,17 @@ theorem fsample_wf : FWFds fsample := by
 
 def sample : Dataset :=
   ⟨"my%20ds".toList,
-   [.base ⟨"a%20b".toList, ['f'], [2, 3], ["x".toList, "y".toList]⟩,
-    .base ⟨['c'], ['i'], [4], []⟩,
-    .struct ['S'] [.base ⟨['u'], ['U'], [2], []⟩],
-    .seq ['Q'] [.base ⟨['i'], ['h'], [7], []⟩],
-    .grid ['G'] [⟨"arr".toList, ['d'], [2], [['x']]⟩, ⟨['x'], ['d'], [2], [['x']]⟩]]⟩
+   [.base ⟨"a%20b".toList, ['f'], [2, 3], ["x".toList, "y".toList], false⟩,
+    .base ⟨['c'], ['i'], [4], [], true⟩,
+    .struct ['S'] [.base ⟨['u'], ['U'], [2], [], false⟩],
+    -- 7 records: a column, an array member holding data (record axis + 3 values), a declared-only array member
+    .seq ['Q'] [.base ⟨['i'], ['h'], [7], [], false⟩, .base ⟨['k'], ['h'], [7, 3], [], false⟩,
+                .base ⟨['m'], ['d'], [3], [['n']], true⟩],
+    .grid ['G'] [⟨"arr".toList, ['d'], [2], [['x']], false⟩, ⟨['x'], ['d'], [2], [['x']], false⟩]]⟩
 
 theorem sample_wf : WFds sample := by
   simp [WFds, sample, WFL, WFT, BaseOk, NameOk, Tmpl.name]
   decide
-
-theorem sample_cols : ColsL sample.kids 0 := by
-  simp [sample, ColsL, ColsT, ColsB]
 
 theorem sample_prints : ∃ s, printDs sample = .ok s := by
   have l1 : lookup Gen.NUMPY_TO_DAP2_TYPEMAP (dtypeChar ['f']) = some "Float32".toList := by decide
